@@ -63,6 +63,9 @@ func (c *FnCtx) exec(st *State, s ast.Stmt) []Exit {
 	if c.rejected != "" {
 		return nil
 	}
+	if n := len(st.pc); n > 0 && st.pc[n-1] == "false" {
+		return nil // infeasible path
+	}
 	switch x := s.(type) {
 	case *ast.BlockStmt:
 		return c.execBlock(st, x.List)
@@ -354,6 +357,9 @@ func (c *FnCtx) assignTo(st *State, l ast.Expr, v *Val) {
 		}
 		if v.S == SNone && v.Box != "" {
 			nv = c.copyVal(st, v)
+		}
+		if nv.S != SNone && len(nv.T) > 400 {
+			nv = &Val{T: c.nameTerm(nv.T, nv.S, "v_"+sanitizeSym(x.Name)), S: nv.S, Typ: nv.Typ, Fn: nv.Fn, FnObj: nv.FnObj, Recv: nv.Recv}
 		}
 		st.vars[obj] = nv
 		if ref, ok := c.boxedScalars[obj]; ok && nv.S != SNone {
